@@ -493,6 +493,30 @@ def r4(c):
                                 "under (get_prefix(...).name): two or_longer variants of one source list have different derived names — the second is referenced by the policy but never defined",
                                 key_text="dedupe-key")
     c.floor("C14.R4", "dedupe keys of the prefix-list generators", ndedupe, 8)
+    # the united name is a function of the member names IN THE ORDER THE POLICY WROTE THEM, at every site that builds it (the policy side refers, the list side defines): an
+    # order-changing operation on one side only (sorted / set / reversed / .sort()) makes `B_OR_A` be referred to while `A_OR_B` is defined
+    REORDER = ("sorted", "set", "frozenset", "reversed")
+    nsites = 0
+    for modname in ("annet.rpl_generators.community", "annet.rpl_generators.cumulus_frr", "annet.rpl_generators.policy"):
+        mm = repo.module(modname)
+        for q, f0 in mm.defs.items():
+            if not isinstance(f0, ast.FunctionDef) or not any(call_name(x) == "mangle_united_community_list_name" for x in calls_in(f0)):
+                continue
+            pvu = Provenance(f0)
+            sorted_names = {x.func.value.id for x in calls_in(f0) if isinstance(x.func, ast.Attribute) and x.func.attr in ("sort", "reverse") and isinstance(x.func.value, ast.Name)}
+            for call in [x for x in calls_in(f0) if call_name(x) == "mangle_united_community_list_name" and x.args]:
+                nsites += 1
+                orig = pvu.origins(call.args[0], through_calls=True)
+                re_calls = [n_ for k_, n_ in orig if k_ == "call" and call_name(n_) in REORDER]
+                re_names = [n_ for n_ in ast.walk(call.args[0]) if isinstance(n_, ast.Name) and n_.id in sorted_names]
+                for k_, n_ in orig:
+                    if k_ == "for" and getattr(n_, "value", None) is not None:
+                        re_names += [y for y in ast.walk(n_.value) if isinstance(y, ast.Name) and y.id in sorted_names]
+                bad = re_calls + re_names
+                c.check("C14.R4", not bad, repo.loc(mm, bad[0] if bad else call), f"{q}/united-name-order-as-written",
+                        f"the member names handed to mangle_united_community_list_name went through `{norm(bad[0])[:60] if bad else ''}`: this site names the union in another order than the "
+                        "sites that keep the policy's order, so a referenced united list is not defined under that name", key_text="united-reordered")
+    c.floor("C14.R4", "sites building a united community-list name", nsites, 4)
     # united community lists
     cm = repo.module("annet.rpl_generators.community")
     fn = repo.func("annet.rpl_generators.community", "get_used_united_community_lists")
